@@ -21,18 +21,21 @@ class K:
 
 class T:
     """A symbolic term: operator + hashable arguments."""
-    __slots__ = ('op', 'args')
+    __slots__ = ('op', 'args', '_h')
 
     def __init__(self, op, *args):
         self.op = op
         self.args = args
+        self._h = hash(('T', op, args))
 
     def __eq__(self, other):
-        return isinstance(other, T) and self.op == other.op \
-            and self.args == other.args
+        if self is other:
+            return True
+        return isinstance(other, T) and self._h == other._h and \
+            self.op == other.op and self.args == other.args
 
     def __hash__(self):
-        return hash(('T', self.op, self.args))
+        return self._h
 
     def __repr__(self):
         return show(self)
